@@ -61,7 +61,10 @@ func locOf(addr ssa.Value) (counterLoc, bool) {
 // checkC04Shared: closures capture by reference and see later updates only if the environment operations are the plain
 // scope-chain walk (C03's shape rules: no memo of where a name was found, no copy).
 func checkC04Shared(p *Prog, l *Ledger) {
-	l.AsOnly(map[string]string{"C03/S1-environment-shape": "C04/S4-closure/environment-shape"}, func() { checkC03(p, l) })
+	// closures capture scopes: a scope is fresh for every execution of a block or loop body and names are looked up
+	// under the node's own lexeme everywhere (C03's wiring rules) — a recycled body scope makes closures of different
+	// iterations share variables, a name normalised at some sites and not at others binds and reads different keys
+	l.AsOnly(map[string]string{"C03/S1-environment-shape": "C04/S4-closure/environment-shape", "C03/S2-scope-wiring": "C04/S4-closure/scope-wiring"}, func() { checkC03(p, l) })
 }
 
 func checkBalancedCounters(p *Prog, l *Ledger, rule string) {
